@@ -121,6 +121,18 @@ class _SerialPool:
         _SerialPool.calls += 1
         return iter([func(x) for x in iterable])
 
+    def imap_unordered(self, func, iterable, chunksize=1):
+        _SerialPool.calls += 1
+        return iter([func(x) for x in iterable])
+
+    def starmap(self, func, iterable, chunksize=None):
+        _SerialPool.calls += 1
+        return [func(*x) for x in iterable]
+
+    def apply(self, func, args=(), kwds=None):
+        _SerialPool.calls += 1
+        return func(*args, **(kwds or {}))
+
     def close(self):
         pass
 
